@@ -176,8 +176,12 @@ def run_totality(case, out):
 MW = ["alfa", "bravo", "charlie", "delta", "echo", "al", "alf"]
 
 
+SW = ["the", "of", "it", "m", "bravo", "tango", "sierra", "uniform"]   # for the stop-filtered field s
+
+
 def mdoc_s():
     return st.fixed_dictionaries({"t": st.lists(st.sampled_from(MW), min_size=0, max_size=5),
+                                  "s": st.lists(st.sampled_from(SW), min_size=0, max_size=4),
                                   "w": st.lists(st.sampled_from(["x", "y", "z"]), max_size=2, unique=True),
                                   "n": st.one_of(st.none(), st.integers(-5, 5))})
 
@@ -197,6 +201,12 @@ def mleaf_s():
                                         "se": se, "ee": ee},
                   st.sampled_from([None, "alfa", "bravo", "c"]), st.sampled_from([None, "charlie", "delta", "e"]),
                   st.booleans(), st.booleans()),
+        # a range on an analysed field whose analyzer drops stop words and one-letter words: the bounds are what the
+        # user typed (stop words included), the matched terms are the indexed ones
+        st.builds(lambda s, e, se, ee: {"op": "trange", "f": "s", "start": s, "end": e, "se": se, "ee": ee},
+                  st.sampled_from(["the", "of", "m", "sierra", "it"]), st.sampled_from([None, "zz", "tango", "the"]),
+                  st.booleans(), st.booleans()),
+        st.builds(lambda x: {"op": "term", "f": "s", "x": x}, st.sampled_from(["bravo", "tango", "sierra"])),
         st.builds(lambda s, e, se, ee: {"op": "nrange", "f": "n", "start": s, "end": (e if s is not None or e is not None else 0),
                                         "se": se, "ee": ee},
                   st.one_of(st.none(), st.integers(-5, 5)), st.one_of(st.none(), st.integers(-5, 5)),
@@ -321,13 +331,17 @@ def ops_in(q):
 
 def run_meaning(case, out):
     schema = fields.Schema(k=fields.ID(stored=True), t=fields.TEXT(analyzer=analysis.SpaceSeparatedTokenizer(), phrase=True),
-                           w=fields.KEYWORD, n=fields.NUMERIC(int))
+                           w=fields.KEYWORD, n=fields.NUMERIC(int), s=fields.TEXT(analyzer=analysis.StandardAnalyzer()))
     ix = RamStorage().create_index(schema)
     w = ix.writer()
     docs = []
     for i, d in enumerate(case["docs"]):
         dd = dict(d, k="k%d" % i)
         kw = {"k": dd["k"]}
+        if d.get("s"):
+            kw["s"] = " ".join(d["s"])
+        # what StandardAnalyzer indexes: no stop words, no one-letter words
+        dd["s"] = [x for x in (d.get("s") or []) if x not in analysis.STOP_WORDS and len(x) >= 2]
         if d["t"]:
             kw["t"] = " ".join(d["t"])
         if d["w"]:
